@@ -540,3 +540,10 @@ CLAUSES = [
     Clause("hif", lambda tier: hif_docs(tier), check_hif, quick=400, thorough=2000,
            rule="document with at least two hyperedges that share a node"),
 ]
+
+# supplementary coverage-guided campaigns run after the Hypothesis search of the thorough tier
+# (libFuzzer through atheris drives the same grammar strategies and the same oracle)
+POST_THOROUGH = [
+    ("atheris:hmetis", ["{verif}/tools/atheris_c06.py", "hmetis", "-runs=40000"]),
+    ("atheris:hif", ["{verif}/tools/atheris_c06.py", "hif", "-runs=15000"]),
+]
